@@ -100,7 +100,9 @@ def judgeFault (line : String) : String :=
       | .ok pre, .ok post =>
         let same := decide ({ canon pre with fk := true } = { canon post with fk := true })
         let reported := resS.trimAscii.toString != "ok"
-        let k := if !post.fk then "D14" else ""
+        -- D19: `DB.View` on the shared-cache ":memory:" path hands out a writable handle
+        let isMem := (_what.splitOn " ").contains "cfg=memory"
+        let k := String.intercalate "," ((if !post.fk then ["D14"] else []) ++ (if isMem then ["D19"] else []))
         s!"{seq} A={if same then 1 else 0} R={if reported then 1 else 0} F={if pre.fk == post.fk then 1 else 0} I={if (canon post).invB then 1 else 0} K={k}"
       | .error e, _ => s!"{seq} ERR pre: {e}"
       | _, .error e => s!"{seq} ERR post: {e}"
